@@ -1,6 +1,68 @@
-/- Line-protocol driver for engine `parse` — not built yet (stub). -/
+/-
+  Line-protocol driver for engine `parse` (C05): expression text -> AST.
+
+  case   := "expr" <hex of the ASCII text>
+  answer := "ok " SEXPR | "err"
+  SEXPR  := (num N) | (str HEX) | (bool 0|1) | (null) | (id HEX) | (qid HEX HEX) | (pos E) | (neg E) | (not E)
+          | (OP E E)   OP = or and eq neq lt gt le ge like notlike plus minus concat mul div mod is isnot
+          | (between E E E) | (notbetween E E E) | (in E (list E…)) | (notin E (list E…))
+  (HEX of the bytes, `-` for the empty string).  The parser runs on the binding-power table extracted from the code
+  (`Generated.parseTable`); the flags put the shipped powers of the prefix operators back.
+-/
+import AxVerif.Model.Bytes
+import AxVerif.Model.Parser
+import AxVerif.Generated.Parse
+namespace AxVerif.Parser
+open AxVerif
+
+def hx (s : List Nat) : String := hexOrDash (s.map UInt8.ofNat)
+
+def binName : BinOp → String
+  | .or => "or" | .and => "and" | .eq => "eq" | .neq => "neq" | .lt => "lt" | .gt => "gt" | .le => "le" | .ge => "ge"
+  | .like => "like" | .notlike => "notlike" | .plus => "plus" | .minus => "minus" | .concat => "concat"
+  | .mul => "mul" | .div => "div" | .mod => "mod" | .is => "is" | .isnot => "isnot"
+
+mutual
+def dump : PExpr → String
+  | .num i => s!"(num {i})"
+  | .str s => s!"(str {hx s})"
+  | .bool b => if b then "(bool 1)" else "(bool 0)"
+  | .null => "(null)"
+  | .ident s => s!"(id {hx s})"
+  | .qident t c => s!"(qid {hx t} {hx c})"
+  | .un .pos e => s!"(pos {dump e})"
+  | .un .neg e => s!"(neg {dump e})"
+  | .un .not e => s!"(not {dump e})"
+  | .bin op l r => s!"({binName op} {dump l} {dump r})"
+  | .between neg e lo hi => s!"({if neg then "notbetween" else "between"} {dump e} {dump lo} {dump hi})"
+  | .inList neg e items => s!"({if neg then "notin" else "in"} {dump e} (list{dumpList items}))"
+
+def dumpList : List PExpr → String
+  | [] => ""
+  | e :: es => " " ++ dump e ++ dumpList es
+end
+
+def tableOf (flags : List String) : Table :=
+  let t := Generated.parseTable
+  let t := if flags.contains "notBindsLooser" then { t with prefixNot := shippedTable.prefixNot } else t
+  if flags.contains "unaryBindsLooser" then
+    { t with prefixMinus := shippedTable.prefixMinus, prefixPlus := shippedTable.prefixPlus } else t
+
+def step (flags : List String) (line : String) : String :=
+  match words line with
+  | ["expr", h] =>
+    match bytesOfHex h with
+    | none => "bad-op"
+    | some bs =>
+      match lexAll (bs.map (·.toNat)) with
+      | none => "err"
+      | some ts => match parseExpr (tableOf flags) ts with
+        | some e => "ok " ++ dump e
+        | none => "err"
+  | _ => "bad-op"
+
+end AxVerif.Parser
+
 namespace AxVerif.Drivers
-
-def parse (_flags : List String) (_line : String) : String := "unimplemented"
-
+def parse (flags : List String) (line : String) : String := AxVerif.Parser.step flags line
 end AxVerif.Drivers
